@@ -737,7 +737,12 @@ func RunNormalize(c *core.Ctx) {
 		}
 		out := reflect.New(t)
 		var uerr error
+		beforeUnmarshal := model.FromDoc(doc)
 		err := Do(func() error { uerr = doc.Unmarshal(out.Interface()); return nil })
+		if d := model.StrictDiff(beforeUnmarshal, model.FromDoc(doc)); d != "" {
+			c.Violate("roundtrip:unmarshal-changed-document:"+t.Name(), "Unmarshal into %s modified the document it was called on at %s\n  before %s\n  after  %s", t.Name(), d, model.Render(beforeUnmarshal), model.Render(model.FromDoc(doc)))
+			return
+		}
 		if pe, isP := IsPanic(err); isP {
 			c.Violate(PanicSig(pe), "Unmarshal into %s panicked: %v\n%s", t.Name(), pe.Val, trim(pe.Stack, 20))
 			return
